@@ -13,7 +13,7 @@ def c09_functional(nmax):
     o.append('void harness(void) {')
     o.append('  VP_INPUT(vp_in_t, in);')
     o.append('  VP_ASSUME(in.n >= %d && in.n <= %d);' % (H, nmax))
-    o.append('  uint8_t *obj = vp_obj_from(in.mem, %d);' % N)
+    o.append('  uint8_t *obj = vp_pdu_from(in.mem, %d);' % N)
     o.append('  static uint8_t ref[%d]; memcpy(ref, in.mem, %d);' % (N, N))
     o.append('  unsigned pad = (4u - (in.n % 4u)) % 4u;')
     o.append('  spec_put(ref, %d, %d, (in.n + pad) / 4u); spec_put(ref, %d, %d, pad);' % (FL['off'], FL['width'], FP['off'], FP['width']))
@@ -34,7 +34,7 @@ def c09_extent(n):
     o.append('typedef struct { uint8_t mem[%d]; } vp_in_t;' % N)
     o.append('void harness(void) {')
     o.append('  VP_INPUT(vp_in_t, in);')
-    o.append('  uint8_t *obj = vp_obj_from(in.mem, %d);' % N)
+    o.append('  uint8_t *obj = vp_pdu_from(in.mem, %d);' % N)
     o.append('  uint8_t ref[%d]; memcpy(ref, in.mem, %d);' % (N, N))
     o.append('  spec_put(ref, %d, %d, %du); spec_put(ref, %d, %d, %du);' % (FL['off'], FL['width'], N // 4, FP['off'], FP['width'], pad))
     if pad:
@@ -52,7 +52,7 @@ def c09_length_accessors():
     o.append('void harness(void) {')
     o.append('  VP_INPUT(vp_in_t, in);')
     o.append('  VP_ASSUME(in.v < 512);')
-    o.append('  uint8_t *obj = vp_obj_from(in.mem, %d); Avtp_Vss_t *pdu = (Avtp_Vss_t *)obj;' % H)
+    o.append('  uint8_t *obj = vp_pdu_from(in.mem, %d); Avtp_Vss_t *pdu = (Avtp_Vss_t *)obj;' % H)
     o.append('  uint8_t ref[%d]; memcpy(ref, in.mem, %d); spec_put(ref, %d, %d, in.v);' % (H, H, FL['off'], FL['width']))
     o.append('  Avtp_Vss_SetAcfMsgLength(pdu, in.v);')
     o.append('  VP_ASSERT(vp_bytes_eq(obj, ref, %d), "C09 dedicated length setter stores every 9-bit value");' % H)
